@@ -1378,14 +1378,32 @@ class Program:
         while depth > 0:
             depth -= 1
             calls = [b for b in f.blocks if b["term"]["k"] == "call" and not b.get("cleanup")]
-            if not (1 <= len(calls) <= 3) or f.terms.ret is None or f.cfg.loop_headers:
+            if not (1 <= len(calls) <= 4) or f.terms.ret is None or f.cfg.loop_headers:
                 return f
             r = f.terms.ret
             while isinstance(r, tuple) and r and r[0] in ("ref", "deref"):
                 r = r[1]
+            # the panicking face of a checked variant: `fn x(a) { Self::try_x(a).unwrap_or_else(|e| panic!(..)) }`
+            checked = False
+            if isinstance(r, tuple) and r and r[0] == "call" and r[1].name in ("unwrap", "expect", "unwrap_or_else") and r[2] and \
+                    isinstance(r[2][0], tuple) and r[2][0] and r[2][0][0] == "call" and (r[2][0][1].local or r[2][0][1].res_local) and \
+                    r[2][0][1].name in ("try_" + f.name, f.name + "_checked", "checked_" + f.name):
+                ok_div = True
+                if r[1].name == "unwrap_or_else" and len(r[2]) == 2:
+                    clo = r[2][1]
+                    gs_ = [g for g in self.fns if isinstance(clo, tuple) and clo and clo[0] == "agg" and clo[1] == "closure" and g.npath == clo[2]]
+                    ok_div = bool(gs_) and not gs_[0].cfg.returns
+                if ok_div:
+                    r, checked = r[2][0], True
             if not (isinstance(r, tuple) and r and r[0] == "call" and (r[1].local or r[1].res_local)):
                 return f
             args = r[2]
+            if checked and len(args) == f.argc and all(strip_refs(a) == ("param", i + 1) for i, a in enumerate(args)):
+                gs = [g for g in self.resolve(r[1]) if "{closure" not in g.npath]
+                if len(gs) == 1 and gs[0].impl_self == f.impl_self and gs[0] is not f:
+                    f = gs[0]
+                    continue
+                return f
             if len(args) <= f.argc or any(strip_refs(a) != ("param", i + 1) for i, a in enumerate(args[:f.argc])):
                 return f
             def constlike(a):
